@@ -302,6 +302,17 @@ def cmd_campaign(tier: str, verif_seed: int, workers: int) -> int:
 
 REQUIRED_PROBES = [
     'depth_ge_3',
+    'depth_ge_10',
+    'one_exception_unwound_2_blocks',
+    'one_exception_unwound_5_blocks',
+    'prebuilt_entered_under_other_config',
+    'construct_only_inside_block',
+    'spawn_inside_block_threadctx',
+    'spawn_inside_block_taskfresh',
+    'parked_in_callback_while_others_ran',
+    'jit_closure_reused_under_other_config',
+    'preempted:__enter__:+2',
+    'preempted:__init__:+2',
     'raise_at_depth_ge_2',
     'caught_mid_stack_and_continued',
     'exit_by_base_exception',
